@@ -2,6 +2,7 @@ package an
 
 import (
 	"fmt"
+	"go/constant"
 	"go/token"
 	"go/types"
 	"sort"
@@ -179,7 +180,11 @@ func stringParams(fn *ssa.Function) []*ssa.Parameter {
 // ruleF1: the validator's verdict depends on its string argument only through NFKD.
 func (a *Analysis) ruleF1() {
 	r := a.R
-	for _, fn := range []*ssa.Function{a.CM, a.IMV} {
+	roots := []*ssa.Function{a.IMV}
+	if a.CM != nil {
+		roots = append(append([]*ssa.Function{}, a.API[a.CM]...), a.IMV)
+	}
+	for _, fn := range roots {
 		if fn == nil {
 			continue
 		}
@@ -324,7 +329,8 @@ func (a *Analysis) ruleF2() {
 	// nothing else happens to the result or arguments
 	for _, c := range e.Calls {
 		switch c.Callee {
-		case "golang.org/x/crypto/pbkdf2.Key", "(golang.org/x/text/unicode/norm.Form).String", "(golang.org/x/text/unicode/norm.Form).Bytes", "len", "cap", "append":
+		case "golang.org/x/crypto/pbkdf2.Key", "(golang.org/x/text/unicode/norm.Form).String", "(golang.org/x/text/unicode/norm.Form).Bytes",
+			"(golang.org/x/text/unicode/norm.Form).AppendString", "(golang.org/x/text/unicode/norm.Form).Append", "len", "cap", "append":
 		default:
 			r.Bad("F2", fk+"/extra-call", a.P.InstrPos(c.Instr), "", "%s also calls %s: the seed must be a function of the two NFKD forms only", fk, c.Callee)
 		}
@@ -333,7 +339,7 @@ func (a *Analysis) ruleF2() {
 	callees := a.moduleCallees(fn)
 	var impure []string
 	for f := range callees {
-		if f == a.CM || f == a.IMV || a.touchesPackageState(f) {
+		if a.isAnchor(f, a.CM) || f == a.IMV || a.touchesPackageState(f) {
 			impure = append(impure, fnKey(f))
 		}
 	}
@@ -552,7 +558,7 @@ func (a *Analysis) ruleF3() {
 					if len(x.Vals) != 2 {
 						continue
 					}
-					ev, _ := x.Vals[1].(ErrV)
+					ev := asErr(x.Vals[1])
 					xp := a.P.InstrPos(x.Ret)
 					switch {
 					case ev.Kind == ekNil:
@@ -567,7 +573,7 @@ func (a *Analysis) ruleF3() {
 							r.Bad("F3e", fk+"/read-error", xp, ctx.Name, "after a failed read %s returns %v instead of the empty string", fk, x.Vals[0])
 							okE = false
 						}
-					case ev.Kind == ekFresh || ev.Kind == ekSentinel || ev.Kind == ekWrap:
+					case ev.Kind == ekFresh || ev.Kind == ekSentinel || ev.Kind == ekWrap || (ev.Kind == ekUnknown && ev.NonNil):
 						s, _ := x.Vals[0].(StrV)
 						if s.Kind != skConst || s.S != "" {
 							r.Bad("F3e", fk+"/read-error", xp, ctx.Name, "a failure exit returns %v instead of the empty string", x.Vals[0])
@@ -899,7 +905,7 @@ func (a *Analysis) ruleS2() {
 				nExit++
 				xp := a.P.InstrPos(x.Ret)
 				key := fk + "/exit" + exitLabel(x.Ret)
-				ev, _ := x.Vals[len(x.Vals)-1].(ErrV)
+				ev := asErr(x.Vals[len(x.Vals)-1])
 				var first *EdgeCond
 				for i := range x.Conds {
 					if bv, ok := x.Conds[i].Val.(BoolV); ok && !bv.Known && bv.C != nil && !x.Conds[i].LoopTest {
@@ -1036,72 +1042,161 @@ func (a *Analysis) ruleS3() {
 	}
 	fk := fnKey(fn)
 	pos := a.P.Pos(fn.Pos())
+	// the one call of the validator, with IsMnemonicValid's own arguments
 	var call *ssa.Call
-	var cmp *ssa.BinOp
-	var ret *ssa.Return
-	neg := 0
 	other := ""
 	for _, b := range fn.Blocks {
 		for _, in := range b.Instrs {
-			switch x := in.(type) {
-			case *ssa.DebugRef:
-			case *ssa.Call:
-				if x.Call.StaticCallee() == a.CM && call == nil {
-					call = x
-				} else {
-					other = "calls " + calleeName(x)
-				}
-			case *ssa.BinOp:
-				if cmp == nil {
-					cmp = x
-				} else {
-					other = "extra operation " + x.String()
-				}
-			case *ssa.UnOp:
-				if x.Op == token.NOT {
-					neg++
-				} else {
-					other = "extra operation " + x.String()
-				}
-			case *ssa.Return:
-				if ret == nil {
-					ret = x
-				} else {
-					other = "more than one return"
-				}
-			default:
-				other = fmt.Sprintf("contains %T", in)
+			c, ok := in.(ssa.CallInstruction)
+			if !ok {
+				continue
+			}
+			if x, isCall := in.(*ssa.Call); isCall && a.isAnchor(x.Call.StaticCallee(), a.CM) && call == nil {
+				call = x
+			} else {
+				other = "calls " + calleeName(c)
 			}
 		}
 	}
-	ok := other == "" && len(fn.Blocks) == 1 && call != nil && cmp != nil && ret != nil
-	if ok {
-		// arguments passed through unchanged
+	if call == nil {
+		r.Add("S3", fk, pos, "", Violated, "IsMnemonicValid is not `CheckMnemonic(m, lang) == nil`: it does not call CheckMnemonic")
+		return
+	}
+	if other == "" {
+		if len(call.Call.Args) != len(fn.Params) {
+			other = "arguments are not passed through unchanged"
+		}
 		for i, p := range fn.Params {
 			if i >= len(call.Call.Args) || call.Call.Args[i] != ssa.Value(p) {
-				ok = false
 				other = "arguments are not passed through unchanged"
 			}
 		}
 	}
-	if ok {
-		isCmp := (cmp.X == ssa.Value(call) && isNilConst(cmp.Y)) || (cmp.Y == ssa.Value(call) && isNilConst(cmp.X))
-		eq := cmp.Op == token.EQL
-		if neg%2 == 1 {
-			eq = !eq
-		}
-		if !isCmp || (cmp.Op != token.EQL && cmp.Op != token.NEQ) || !eq {
-			ok = false
-			other = "result is not (CheckMnemonic(...) == nil)"
-		}
-	}
-	if ok {
-		r.OK("S3", fk, pos, "", "returns CheckMnemonic(m, lang) == nil with its own arguments")
-	} else {
-		if other == "" {
-			other = "shape not recognised"
-		}
+	if other != "" {
 		r.Add("S3", fk, pos, "", Violated, "IsMnemonicValid is not exactly `CheckMnemonic(m, lang) == nil`: %s", other)
+		return
+	}
+	// interpret the (tiny) function for both outcomes of the call: error nil / non-nil
+	nres := call.Call.StaticCallee().Signature.Results().Len()
+	run := func(errNil bool) (res bool, why string) {
+		env := map[ssa.Value]int{} // 0 false, 1 true, 2 the error of the call, 3 nil
+		get := func(v ssa.Value) (int, bool) {
+			if c, ok := v.(*ssa.Const); ok {
+				if c.Value == nil {
+					return 3, true
+				}
+				if c.Value.Kind() == constant.Bool {
+					if constant.BoolVal(c.Value) {
+						return 1, true
+					}
+					return 0, true
+				}
+				return 0, false
+			}
+			x, ok := env[v]
+			return x, ok
+		}
+		var prev *ssa.BasicBlock
+		b := fn.Blocks[0]
+		for steps := 0; steps < 64; steps++ {
+			var next *ssa.BasicBlock
+			for _, in := range b.Instrs {
+				switch x := in.(type) {
+				case *ssa.DebugRef:
+				case *ssa.Call:
+					if x != call {
+						return false, "extra call"
+					}
+					if nres == 1 {
+						env[x] = 2
+					}
+				case *ssa.Extract:
+					if x.Tuple != ssa.Value(call) {
+						return false, "extract of another tuple"
+					}
+					if x.Index == nres-1 {
+						env[x] = 2
+					}
+				case *ssa.BinOp:
+					l, ok1 := get(x.X)
+					rr, ok2 := get(x.Y)
+					if !ok1 || !ok2 || (x.Op != token.EQL && x.Op != token.NEQ) {
+						return false, "operation " + x.String()
+					}
+					var eq bool
+					switch {
+					case (l == 2 && rr == 3) || (l == 3 && rr == 2):
+						eq = errNil
+					case l <= 1 && rr <= 1:
+						eq = l == rr
+					default:
+						return false, "operation " + x.String()
+					}
+					if x.Op == token.NEQ {
+						eq = !eq
+					}
+					env[x] = 0
+					if eq {
+						env[x] = 1
+					}
+				case *ssa.UnOp:
+					v, ok := get(x.X)
+					if x.Op != token.NOT || !ok || v > 1 {
+						return false, "operation " + x.String()
+					}
+					env[x] = 1 - v
+				case *ssa.Phi:
+					found := false
+					for i, p := range b.Preds {
+						if p == prev {
+							v, ok := get(x.Edges[i])
+							if !ok {
+								return false, "phi of an unknown value"
+							}
+							env[x] = v
+							found = true
+						}
+					}
+					if !found {
+						return false, "phi without predecessor"
+					}
+				case *ssa.If:
+					v, ok := get(x.Cond)
+					if !ok || v > 1 {
+						return false, "branch on " + x.Cond.String()
+					}
+					next = b.Succs[1-v]
+				case *ssa.Jump:
+					next = b.Succs[0]
+				case *ssa.Return:
+					if len(x.Results) != 1 {
+						return false, "result count"
+					}
+					v, ok := get(x.Results[0])
+					if !ok || v > 1 {
+						return false, "returns " + x.Results[0].String()
+					}
+					return v == 1, ""
+				default:
+					return false, fmt.Sprintf("contains %T", in)
+				}
+			}
+			if next == nil {
+				return false, "no terminator"
+			}
+			prev, b = b, next
+		}
+		return false, "too many steps"
+	}
+	onNil, why1 := run(true)
+	onErr, why2 := run(false)
+	switch {
+	case why1 != "" || why2 != "":
+		r.Unk("S3", fk, pos, "", "cannot reduce IsMnemonicValid to a function of CheckMnemonic's error alone: %s", why1+why2)
+	case onNil && !onErr:
+		r.OK("S3", fk, pos, "", "returns true exactly when %s(m, lang) returns a nil error, with its own arguments", call.Call.StaticCallee().Name())
+	default:
+		r.Add("S3", fk, pos, "", Violated, "IsMnemonicValid is not `CheckMnemonic(m, lang) == nil`: it returns %v when the error is nil and %v when it is not", onNil, onErr)
 	}
 }
 
@@ -1119,9 +1214,9 @@ func (a *Analysis) finishE1() {
 	for key, e := range a.evals {
 		var cls string
 		switch {
-		case a.NME != nil && strings.HasPrefix(key, fnKey(a.NME)+"|"), a.NM != nil && strings.HasPrefix(key, fnKey(a.NM)+"|"):
+		case hasKey(key, a.API[a.NME]...), hasKey(key, a.API[a.NM]...):
 			cls = "E1enc"
-		case a.CM != nil && strings.HasPrefix(key, fnKey(a.CM)+"|"), a.IMV != nil && strings.HasPrefix(key, fnKey(a.IMV)+"|"):
+		case hasKey(key, a.API[a.CM]...), hasKey(key, a.IMV):
 			cls = "E1val"
 		case a.Str != nil && strings.HasPrefix(key, fnKey(a.Str)+"|"):
 			cls = "E1str"
@@ -1183,6 +1278,15 @@ func (a *Analysis) finishE1() {
 			a.R.OK("T3", "consistent/"+m.Name(), a.P.Pos(m.Pos()), "", "%s: encoder list and validator map both come from %s", lc.Name, el.Name())
 		}
 	}
+}
+
+func hasKey(key string, fns ...*ssa.Function) bool {
+	for _, f := range fns {
+		if f != nil && strings.HasPrefix(key, fnKey(f)+"|") {
+			return true
+		}
+	}
+	return false
 }
 
 // touchesPackageState: the function itself loads, stores or takes the address of a module global.
